@@ -247,4 +247,14 @@ theorem DirIs.append {d : List (FName × File)} {L1 L2 : List (FName × File)} {
   rw [h.get_some n f (by simp)]
   exact h.set_old _
 
+/-! ### `mountNext`: the initial flush, then the rotation proper -/
+
+/-- when a rotation is due, `mountNext` flushes the `BufWriter` into the file that is rotated out
+    and then runs the rotation proper -/
+theorem mountNext_due (s : St) (a : Active) (r : RotCfg) (force : Bool) (now : Nat) (fl : Faults)
+    (h : (force || rotationNecessary r a now) = true) :
+    mountNext s a r force now fl =
+      mountNextCore (flushAct s a).1 (flushAct s a).2 r true now fl := by
+  simp [mountNext, h]
+
 end FV.FlwB
